@@ -426,9 +426,13 @@ pub fn ops(max: usize) -> BoxedStrategy<Vec<Op>> {
         2 => prop::collection::vec(gv::dict_of(cfg, inner.clone(), 3).prop_map(RVal::Dict), 1..4).prop_map(RVal::List),
         2 => gv::grid_of(cfg, inner.clone()).prop_map(RVal::Grid),
         1 => gv::date(cfg),
+        // dates the constructors accept although no text encoding can write them
+        1 => (prop::sample::select(vec![-43i32, -1, 10_000, 12_345, 0, 9_999, -9_999]), 1u32..=12, 1u32..=28).prop_map(|(y, m, d)| RVal::Date(y, m, d)),
         1 => gv::time(),
         2 => gv::datetime(cfg),
         2 => small_value(),
+        // lists of lists of lists (borrowed entry pointers can point two and three levels down)
+        2 => prop::collection::vec(prop::collection::vec(prop::collection::vec(inner.clone(), 0..4).prop_map(RVal::List), 0..4).prop_map(RVal::List), 1..4).prop_map(RVal::List),
     ];
     (prop::collection::vec((slot(), seedv), 0..6), prop::collection::vec(op(), 1..=max))
         .prop_map(|(pre, mut rest)| {
